@@ -187,6 +187,10 @@ fn gen_array(rng: &mut Rng, n: &mut Names) -> Decl {
     let elem = if !n.enums.is_empty() && rng.chance(1, 2) {
         let e = rng.pick(&n.enums).0.clone();
         respell(rng, &e)
+    } else if !n.structs.is_empty() && rng.chance(1, 2) {
+        // an array of structures
+        let e = rng.pick(&n.structs).clone();
+        respell(rng, &e)
     } else {
         "INT".to_string()
     };
